@@ -27,7 +27,7 @@ use saito_core::core::routing_thread::{RoutingEvent, RoutingStats, RoutingThread
 use saito_core::core::util::configuration::{Configuration, PeerConfig};
 use saito_core::core::verification_thread::{VerificationThread, VerifyRequest};
 use tokio::sync::mpsc::{channel, Receiver};
-use tokio::sync::RwLock;
+use saito_core::core::util::verif::RwLock;
 
 use crate::rng::Rng;
 use crate::simcfg::{SimClock, SimConfig};
@@ -905,5 +905,263 @@ impl Sim {
                 return false;
             }
         }
+    }
+}
+
+// ---------------------------------------------------------------------------------------------
+// await-point interleaving of the processors of one node (SimExec): several handlers of
+// different processors are in flight at once; a seeded choice decides which woken task is polled
+// next; SimIo calls yield with a seeded probability so that a handler can be suspended while it
+// holds locks across an I/O await. A state in which unfinished tasks exist and none is woken is
+// a deadlock.
+
+use std::future::Future;
+use std::pin::Pin;
+use std::sync::atomic::AtomicBool;
+use std::task::{Context, Poll, Wake, Waker};
+
+struct WakeFlag(AtomicBool);
+impl Wake for WakeFlag {
+    fn wake(self: Arc<Self>) {
+        self.0.store(true, Ordering::SeqCst);
+    }
+    fn wake_by_ref(self: &Arc<Self>) {
+        self.0.store(true, Ordering::SeqCst);
+    }
+}
+
+#[derive(Clone, Debug)]
+pub struct DeadlockReport {
+    pub node: usize,
+    /// (processor, locks held as (rank, write, file, line), lock awaited)
+    pub tasks: Vec<(usize, Vec<(u8, bool, String, u32)>, Option<(u8, bool, String, u32)>)>,
+    pub polls: u64,
+}
+
+impl Sim {
+    /// run the given handler actions of ONE node concurrently (each a different processor)
+    pub fn run_concurrently(&mut self, n: usize, procs: &[usize], yield_pm: u64) -> Result<u64, DeadlockReport> {
+        let spec: Vec<(usize, bool)> = procs.iter().map(|p| (*p, false)).collect();
+        self.run_tasks(n, &spec, yield_pm)
+    }
+
+    /// tasks = (processor, is_timer_event); at most one task per processor
+    pub fn run_tasks(&mut self, n: usize, procs: &[(usize, bool)], yield_pm: u64) -> Result<u64, DeadlockReport> {
+        let spec: Vec<(usize, u8)> = procs.iter().map(|(p, t)| (*p, *t as u8)).collect();
+        self.run_tasks_k(n, &spec, yield_pm)
+    }
+
+    /// tasks = (processor, kind) with kind 0 = next queued event, 1 = timer call, 2 = statistics
+    /// interval call; at most one task per processor
+    pub fn run_tasks_k(&mut self, n: usize, procs: &[(usize, u8)], yield_pm: u64) -> Result<u64, DeadlockReport> {
+        if self.nodes[n].dead.is_some() || procs.is_empty() {
+            return Ok(0);
+        }
+        self.steps += 1;
+        let node_ptr: *mut FullNode = &mut self.nodes[n];
+        // SAFETY: each future borrows a different processor field of the node; the node is not
+        // moved or otherwise accessed until all futures have completed or been dropped below.
+        let mut tasks: Vec<(usize, Option<Pin<Box<dyn Future<Output = ()>>>>, Arc<WakeFlag>)> = vec![];
+        for (p, kind) in procs {
+            if tasks.iter().any(|t| t.0 == *p) {
+                continue;
+            }
+            let timer = &(*kind == 1);
+            let fut: Option<Pin<Box<dyn Future<Output = ()>>>> = unsafe {
+                let node = &mut *node_ptr;
+                if *kind == 2 {
+                    let now = node.clock.now();
+                    match *p {
+                        P_ROUTING => {
+                            let r = &mut (*node_ptr).routing;
+                            Some(Box::pin(async move {
+                                r.on_stat_interval(now).await;
+                            }) as Pin<Box<dyn Future<Output = ()>>>)
+                        }
+                        P_CONSENSUS => {
+                            let c = &mut (*node_ptr).consensus;
+                            Some(Box::pin(async move {
+                                c.on_stat_interval(now).await;
+                            }) as Pin<Box<dyn Future<Output = ()>>>)
+                        }
+                        P_VERIFICATION => {
+                            let v = &mut (*node_ptr).verification;
+                            Some(Box::pin(async move {
+                                v.on_stat_interval(now).await;
+                            }) as Pin<Box<dyn Future<Output = ()>>>)
+                        }
+                        _ => {
+                            let m = &mut (*node_ptr).mining;
+                            Some(Box::pin(async move {
+                                m.on_stat_interval(now).await;
+                            }) as Pin<Box<dyn Future<Output = ()>>>)
+                        }
+                    }
+                } else if *timer {
+                    let now = node.clock.now();
+                    let d = Duration::from_millis(now.saturating_sub(node.last_tick[*p]).max(1));
+                    node.last_tick[*p] = now;
+                    match *p {
+                        P_ROUTING => {
+                            let r = &mut (*node_ptr).routing;
+                            Some(Box::pin(async move {
+                                r.process_timer_event(d).await;
+                            }) as Pin<Box<dyn Future<Output = ()>>>)
+                        }
+                        P_CONSENSUS => {
+                            let c = &mut (*node_ptr).consensus;
+                            Some(Box::pin(async move {
+                                c.process_timer_event(d).await;
+                            }) as Pin<Box<dyn Future<Output = ()>>>)
+                        }
+                        P_VERIFICATION => None,
+                        _ => {
+                            let m = &mut (*node_ptr).mining;
+                            Some(Box::pin(async move {
+                                m.process_timer_event(d).await;
+                            }) as Pin<Box<dyn Future<Output = ()>>>)
+                        }
+                    }
+                } else {
+                match *p {
+                    P_ROUTING => {
+                        if let Some(e) = node.net_in.pop_front() {
+                            let r = &mut (*node_ptr).routing;
+                            Some(Box::pin(async move {
+                                r.process_network_event(e).await;
+                            }))
+                        } else if let Some(e) = node.q_routing.pop_front() {
+                            let r = &mut (*node_ptr).routing;
+                            Some(Box::pin(async move {
+                                r.process_event(e).await;
+                            }))
+                        } else {
+                            None
+                        }
+                    }
+                    P_CONSENSUS => node.q_consensus.pop_front().map(|e| {
+                        let c = &mut (*node_ptr).consensus;
+                        Box::pin(async move {
+                            c.process_event(e).await;
+                        }) as Pin<Box<dyn Future<Output = ()>>>
+                    }),
+                    P_VERIFICATION => node.q_verification.pop_front().map(|e| {
+                        let v = &mut (*node_ptr).verification;
+                        Box::pin(async move {
+                            v.process_event(e).await;
+                        }) as Pin<Box<dyn Future<Output = ()>>>
+                    }),
+                    _ => node.q_mining.pop_front().map(|e| {
+                        let m = &mut (*node_ptr).mining;
+                        Box::pin(async move {
+                            m.process_event(e).await;
+                        }) as Pin<Box<dyn Future<Output = ()>>>
+                    }),
+                }
+                }
+            };
+            if fut.is_some() {
+                tasks.push((*p, fut, Arc::new(WakeFlag(AtomicBool::new(true)))));
+            }
+        }
+        let mut yrng = self.rng.fork("yield");
+        crate::simio::set_yielder(Some(Box::new(move |_site| yield_pm > 0 && yrng.chance(yield_pm, 1000))));
+        let mut lrng = self.rng.fork("lock-yield");
+        saito_core::core::util::verif::set_lock_yielder(Some(Box::new(move |_rank| yield_pm > 0 && lrng.chance(yield_pm, 1000))));
+        let mut polls = 0u64;
+        let mut pumped_since_progress = false;
+        let mut result: Result<u64, DeadlockReport> = Ok(0);
+        loop {
+            let unfinished: Vec<usize> = (0..tasks.len()).filter(|i| tasks[*i].1.is_some()).collect();
+            if unfinished.is_empty() {
+                break;
+            }
+            let runnable: Vec<usize> = unfinished.iter().cloned().filter(|i| tasks[*i].2 .0.load(Ordering::SeqCst)).collect();
+            if runnable.is_empty() && !pumped_since_progress {
+                // a task may be waiting for room in an inter-processor channel: the receiving side
+                // (the scheduler's queues) takes everything, which wakes such a sender
+                unsafe { (*node_ptr).pump() };
+                pumped_since_progress = true;
+                continue;
+            }
+            if runnable.is_empty() {
+                // nobody can make progress: deadlock
+                let mut rep = vec![];
+                for i in &unfinished {
+                    let tid = (n as u64) * 10 + tasks[*i].0 as u64 + 1;
+                    let held = saito_core::core::util::verif::held_by(tid).into_iter().map(|h| (h.rank, h.write, h.file.to_string(), h.line)).collect();
+                    let waiting = saito_core::core::util::verif::waiting_of(tid).map(|h| (h.rank, h.write, h.file.to_string(), h.line));
+                    rep.push((tasks[*i].0, held, waiting));
+                }
+                result = Err(DeadlockReport { node: n, tasks: rep, polls });
+                break;
+            }
+            pumped_since_progress = false;
+            let pick = runnable[self.rng.usize_below(runnable.len())];
+            let tid = (n as u64) * 10 + tasks[pick].0 as u64 + 1;
+            saito_core::core::util::verif::set_current_task(tid);
+            tasks[pick].2 .0.store(false, Ordering::SeqCst);
+            let waker: Waker = tasks[pick].2.clone().into();
+            let mut cx = Context::from_waker(&waker);
+            self.schedule_digest.u64(8).u64(tasks[pick].0 as u64);
+            polls += 1;
+            let fut = tasks[pick].1.as_mut().unwrap();
+            let polled = guarded(|| fut.as_mut().poll(&mut cx));
+            match polled {
+                Ok(Poll::Ready(())) => {
+                    tasks[pick].1 = None;
+                }
+                Ok(Poll::Pending) => {}
+                Err(p) => {
+                    tasks[pick].1 = None;
+                    self.nodes[n].dead = Some(p.clone());
+                    self.panics.push((n, "concurrent-handler", p));
+                    break;
+                }
+            }
+            if polls > 200_000 {
+                break;
+            }
+        }
+        // drop every remaining future before touching the node again
+        tasks.clear();
+        crate::simio::set_yielder(None);
+        saito_core::core::util::verif::set_lock_yielder(None);
+        saito_core::core::util::verif::set_current_task(0);
+        self.flush_outbox(n);
+        match result {
+            Ok(_) => Ok(polls),
+            Err(e) => Err(e),
+        }
+    }
+
+    /// like `step`, but when several processors of one node have work they run concurrently
+    pub fn step_concurrent(&mut self, yield_pm: u64) -> Result<bool, DeadlockReport> {
+        let acts = self.enabled();
+        if acts.is_empty() {
+            return Ok(false);
+        }
+        let a = acts[self.rng.usize_below(acts.len())].clone();
+        let node = match &a {
+            Action::Own(n, _) | Action::NetIn(n) => Some(*n),
+            _ => None,
+        };
+        if let Some(n) = node {
+            let mut procs: Vec<usize> = vec![];
+            for x in &acts {
+                match x {
+                    Action::Own(m, p) if *m == n && !procs.contains(p) => procs.push(*p),
+                    Action::NetIn(m) if *m == n && !procs.contains(&P_ROUTING) => procs.push(P_ROUTING),
+                    _ => {}
+                }
+            }
+            if procs.len() >= 2 {
+                *self.fired.entry("concurrent_handlers".into()).or_insert(0) += 1;
+                self.run_concurrently(n, &procs, yield_pm)?;
+                return Ok(true);
+            }
+        }
+        self.apply(a);
+        Ok(true)
     }
 }
